@@ -13,9 +13,9 @@ from harness.swharness import Harness
 
 PNONE, PALL, ABSENT, BADACT = 65535, 65532, 9, 65000
 FRAME_LEN = 60
-ET_OF = {"f1": 0x88b5, "f2": 0x88b6, "miss": 0x0801}
+ET_OF = {"f1": 0x88b5, "f2": 0x88b6, "f3": 0x88b8, "miss": 0x0801}
 ET_BADFLOW = 0x88b7       # the flow whose action list the switch must refuse ("addbad")
-OUT_OF = {"f1": 2, "f2": 1}
+OUT_OF = {"f1": 2, "f2": 1}       # f3: the reserved port given as ResOut
 STYPE = {"DESC": 0, "FLOW": 1, "AGGREGATE": 2, "TABLE": 3, "PORT": 4, "QUEUE": 5,
          "VENDOR": 0xffff}
 STNAME = {v: k for k, v in STYPE.items()}
@@ -31,11 +31,14 @@ def frame(k):
 def fmatch(m):
   if m == "all":
     return rb.match()
+  if m == "f1x":      # f1's match made more specific: selects no flow of the model
+    return rb.match(wildcards=rb.FW_ALL & ~(rb.FW_DL_TYPE | rb.FW_IN_PORT), dl_type=ET_OF["f1"], in_port=1)
   return rb.match(wildcards=rb.FW_ALL & ~rb.FW_DL_TYPE, dl_type=ET_OF[m])
 
 
 class Adapter(object):
-  def __init__(self, NP=2, NB=1, MaxEntries=2, seed=0, probe=False):
+  def __init__(self, NP=2, NB=1, MaxEntries=2, seed=0, probe=False, ResOut=0xfffd):
+    self.out_of = dict(OUT_OF, f3=ResOut)
     self.NP, self.NB, self.probe = NP, NB, probe
     self.seed, self.started = seed, False
     rnd = random.Random(seed)
@@ -117,7 +120,7 @@ class Adapter(object):
       if (m["dl_type"] == et and not (m["wildcards"] & rb.FW_DL_TYPE)
           and e["priority"] == 0x8000 and e["table_id"] == 0
           and len(e["actions"]) == 1 and e["actions"][0].get("type") == 0
-          and e["actions"][0].get("body", "")[:4] == "%04x" % OUT_OF[f]):
+          and e["actions"][0].get("body", "")[:4] == "%04x" % self.out_of[f]):
         return f
     return "?%04x" % m["dl_type"]
 
@@ -263,7 +266,8 @@ class Adapter(object):
     if a == "FlowMod":
       cmd, f = args["cmd"], args["f"]
       buf = rb.NO_BUFFER if args["buf"] == "none" else self._concrete(args["slot"])
-      kw = dict(match_bytes=fmatch(f), actions=rb.a_output(OUT_OF[f], 0), buffer_id=buf, xid=x)
+      kw = dict(match_bytes=fmatch(f), actions=rb.a_output(self.out_of[f], 0xffff if self.out_of[f] == rb.OFPP_CONTROLLER else 0),
+                buffer_id=buf, xid=x)
       if cmd == "add":
         return rb.flow_mod(command=rb.FC_ADD, **kw)
       if cmd == "addov":
